@@ -714,6 +714,7 @@ pub fn check_main<P: Prop>(tier: Tier, seed: u64, workers: usize, extra: Option<
     }
     let mut known_met: Vec<String> = Vec::new();
     let mut reported = 0;
+    let mut unrepro_varying = 0u32;
     let mut new_sigs = 0;
     let tree = repo_tree_hash();
     let replays = root.join("replays");
@@ -822,10 +823,19 @@ pub fn check_main<P: Prop>(tier: Tier, seed: u64, workers: usize, extra: Option<
             if exit == 0 {
                 exit = 1;
             }
+        } else if varies_ok {
+            // no verdict from this one alone; it only counts against the run if nothing else
+            // is reported (see below)
+            println!("NOTE: {sig} at case {} did not recur in {tries} executions of {use_path:?}", f.idx);
+            unrepro_varying += 1;
         } else {
             eprintln!("HARNESS-ERROR: violation {sig} at case {} did not reproduce from {use_path:?}", f.idx);
             exit = 2;
         }
+    }
+    if unrepro_varying > 0 && reported == 0 {
+        eprintln!("HARNESS-ERROR: {unrepro_varying} violation(s) did not recur when replayed and nothing else was reported");
+        exit = 2;
     }
     if !by_sig.is_empty() {
         println!("signature summary:");
